@@ -63,6 +63,50 @@ theorem C04_press_fresh {cfg : Config} {d : Dev} (hd : DInv cfg d)
   simp only [C03.pressSpec, hfresh]
   cases cfg.mode <;> rfl
 
+theorem resolve_shape {cfg : Config} {s : StObs} {vel : Nat} {sub : Sub} {code : Code} {n ch v : Nat}
+    (h : resolve cfg s vel sub code = some (n, ch, v)) : ch < 16 ∧ v = vel := by
+  unfold resolve at h
+  split at h
+  · cases h
+  · split at h
+    · cases h
+    · simp only at h
+      split at h
+      · cases h
+      · simp only [Option.some.injEq, Prod.mk.injEq] at h
+        obtain ⟨-, h2, h3⟩ := h
+        exact ⟨by rw [← h2]; exact Nat.mod_lt _ (by decide), h3.symm⟩
+
+/-- **velocity**: every Note On a key press produces — the first holder's, or the one after the Note Off of an interrupted
+    note, in every collision mode — carries the configured velocity -/
+theorem C04_velocity {cfg : Config} {d : Dev} (hd : DInv cfg d)
+    (hcnt : ∀ ch n, d.count ch n = (holders d.noteTr (n, ch) : Int))
+    (sub : Sub) (code : Code) (hna : alookup code cfg.actions = none) (hsw : (kt d code 1).exitComplete = false)
+    (st n v : Nat) (hm : Out.midi st n v ∈ (d.handleKey sub code 1).2) (hon : 0x90 ≤ st) :
+    v = u8 cfg.vel := by
+  rw [C04_press hd hcnt sub code hna hsw] at hm
+  split at hm
+  · cases hm
+  · rename_i n' ch' v' hr
+    obtain ⟨hch, hv⟩ := resolve_shape hr
+    have hoff : ∀ {x y z : Nat}, Out.midi x y z = noteOffMsg ch' n' → x < 0x90 := by
+      intro x y z h; unfold noteOffMsg at h; injection h with h1; omega
+    have hon' : ∀ {x y z : Nat}, Out.midi x y z = noteOnMsg ch' n' v' → z = v' := by
+      intro x y z h; unfold noteOnMsg at h; injection h
+    unfold C03.pressSpec at hm
+    cases hmode : cfg.mode <;> simp only [hmode] at hm
+    all_goals
+      first
+      | (split at hm <;> simp only [List.mem_cons, List.mem_singleton, List.not_mem_nil, or_false] at hm)
+      | (simp only [List.mem_cons, List.mem_singleton, List.not_mem_nil, or_false] at hm)
+    all_goals
+      first
+      | (rw [hon' hm, hv])
+      | (rcases hm with h | h
+         · have := hoff h; omega
+         · rw [hon' h, hv])
+      | (cases hm)
+
 /-- **unit steps / saturation**: octave and semitone move by exactly one (in ℤ, no wrap-around), channel and mapping
     move by one and saturate at the ends; every other action leaves the four values alone -/
 theorem C04_unit_step {cfg : Config} {d : Dev} (hd : DInv cfg d) (a : Action) :
